@@ -149,7 +149,7 @@ pub fn gen_valid(c: &mut Chooser) -> Case {
         dirs_at(&mut doc, site).push(d);
     }
     // 2. structural additions
-    match c.choose("add", 13) {
+    match c.choose("add", 14) {
         0 => {}
         1 => doc.defs[2].fields.push(fld("extra", Ty::list(Ty::list(Ty::nn(Ty::named("Int")))))),
         2 => doc.defs[5].fields.push(FieldDef { args: Some(vec![ivd("a", Ty::nn(Ty::list(Ty::named("Kind"))), Some(Value::List(P::default(), vec![Value::Enum(P::default(), "A".into())])))]), ..fld("withArgs", Ty::named("Result")) }),
@@ -230,6 +230,14 @@ pub fn gen_valid(c: &mut Chooser) -> Case {
                     f.desc = Some((P::default(), "f".into()));
                 }
             }
+        }
+        12 => {
+            // a valid extension of a built-in scalar
+            let mut e = TsDef::new(TsKind::Scalar, Some("ID"));
+            e.ext = true;
+            e.dirs = vec![dir("all", vec![]), dir("one", vec![("n", int(2))])];
+            doc.defs.push(e);
+            tags.push("extend-builtin-scalar".into());
         }
         11 => {
             // an interface that implements another one only through an extension, and a covariant field
@@ -609,6 +617,21 @@ pub fn mutants(base: &TsDoc) -> Vec<(&'static str, String, TsDoc)> {
             dirs_at(&mut m, &site).push(dir("specifiedBy", vec![]));
             out.push(("dir.arg", "missing required argument".into(), m));
         }
+    }
+    // --- directive applications on an extension of a built-in scalar (its definition is implicit)
+    for b in ["ID", "String", "Int"] {
+        let ext = |dirs: Vec<Dir>| {
+            let mut m = base.clone();
+            let mut e = TsDef::new(TsKind::Scalar, Some(b));
+            e.ext = true;
+            e.dirs = dirs;
+            m.defs.push(e);
+            m
+        };
+        out.push(("dir.unknown", format!("SCALAR(extend-builtin-scalar {b})"), ext(vec![dir("nope", vec![])])));
+        out.push(("dir.location", format!("@exec at SCALAR(extend-builtin-scalar {b})"), ext(vec![dir("exec", vec![])])));
+        out.push(("dir.repeated", format!("SCALAR(extend-builtin-scalar {b})"), ext(vec![dir("one", vec![]), dir("one", vec![("n", int(3))])])));
+        out.push(("dir.arg", format!("ill-typed argument at SCALAR(extend-builtin-scalar {b})"), ext(vec![dir("one", vec![("n", s("x"))])])));
     }
     // --- directive recursion, lengths 1..3 and through an input object
     {
